@@ -69,6 +69,12 @@ def run_scenario(case, schedule):
     # login server that afterwards stays silent
     srv2 = servers.Server({'version': 757, 'login': [('success',)],
                            'play': {'bursts': [], 'end': 'silent'}})
+    rec2 = None
+    if case.get('rc_concurrent'):
+        # other threads write while the object reconnects: where their
+        # packets land relative to the new handshake is the user's race, not
+        # the library's; what the library owes is whole frames, each once
+        rec2 = srv2 = Recorder()
     world = vnet.World(servers=[rec, srv2])
     sc = S.Scheduler(schedule, step_budget=case.get('budget', 80000),
                      fine=fine)
@@ -79,6 +85,13 @@ def run_scenario(case, schedule):
     with vnet.installed(world):
         S.install_thread_hooks(world, sc, C)
         C.deque = S.make_deque(sc)
+        # every lock the library creates from now on is scheduler-aware too
+        # (a lock made behind the harness's back would block outside the
+        # scheduler's control)
+        saved_locks = {n: getattr(C, n) for n in ('RLock', 'Lock')
+                       if hasattr(C, n)}
+        for n in saved_locks:
+            setattr(C, n, lambda *a, **k: S.SchedRLock(sc))
         try:
             conn = C.Connection('localhost', 25565, username='u',
                                 allowed_versions={757},
@@ -163,6 +176,8 @@ def run_scenario(case, schedule):
             res['alive'] = sc.join_all(5.0)
         finally:
             C.deque = saved_deque
+            for n, v in saved_locks.items():
+                setattr(C, n, v)
             world.scheduler = None
     res['decisions'] = sc.decisions
     res['timeout_diag'] = sc.timeout_diag
@@ -173,10 +188,15 @@ def run_scenario(case, schedule):
     res['script_errors'] = list(rec.errors)
     res['leftover'] = len(rec.buf)
     res['link2'] = None
-    if len(world.links) > 1:
+    if len(world.links) > 1 and rec2 is not None:
+        res['link2'] = {'errors': list(rec2.errors) + (
+            ['leftover %d bytes' % len(rec2.buf)] if rec2.buf else []),
+            'frames': [('play' if f[0] == 0x05 else 'other', f[0], f[1])
+                       for f in rec2.frames], 'recorder': True}
+    elif len(world.links) > 1:
         res['link2'] = {'errors': list(srv2.errors),
-                        'frames': [(f[0], f[1], f[2][:12])
-                                   for f in srv2.frames]}
+                        'frames': [(f[0], f[1], f[2] if f[1] == 0x05
+                                    else f[2][:12]) for f in srv2.frames]}
     res['events'] = list(link.events)
     res['event_thread'] = dict(link.event_thread)
     res['spans'] = list(rec.frame_spans)
@@ -208,7 +228,11 @@ def check(ctx, case, schedule, r):
                  [f[0] for f in r['frames'] if f[0] != 0x05][:3])
         return
     tags = []
-    for pid, pl, comp in r['frames']:
+    # user packets written after a reconnect travel on the second link
+    on_link2 = [(0x05, f[2], None) for f in (r['link2'] or {}).get(
+        'frames', []) if f[1] == 0x05 and f[0] == 'play']
+    all_frames = list(r['frames']) + on_link2
+    for pid, pl, comp in all_frames:
         try:
             a, b, rest = pl.split(b':', 2)
             ti, k = int(a), int(b)
@@ -230,7 +254,7 @@ def check(ctx, case, schedule, r):
             return
         o = written[t]
         exp = payload(o[0], o[2], case_size(case, o[0], o[2]))
-        got = r['frames'][tags.index(t)][1]
+        got = all_frames[tags.index(t)][1]
         if got != exp:
             ctx.fail('schedule', 'A1-payload-corrupted', sub, got[:30],
                      exp[:30])
@@ -302,8 +326,33 @@ def check(ctx, case, schedule, r):
         if l2 is None:
             ctx.fail('schedule', 'A4-reconnect-no-connection', sub)
             return
-        heads = [(f[0], f[1]) for f in l2['frames'][:2]]
-        stale = [f for f in l2['frames'] if f[1] == 0x05]
+        if l2.get('recorder'):
+            if l2['errors']:
+                ctx.fail('schedule', 'A1-malformed-stream', sub,
+                         l2['errors'][:2])
+                return
+            other = [f[1] for f in l2['frames'] if f[1] != 0x05]
+            if sorted(other) != [0, 0]:
+                ctx.fail('schedule', 'A2-foreign-frame', sub, other[:4],
+                         'handshake and login start (ids 0, 0)')
+                return
+        heads = [] if l2.get('recorder') else \
+            [(f[0], f[1]) for f in l2['frames'][:2]]
+        # a user packet on the new connection is stale unless it is a forced
+        # write that was still in progress (or started) after the reconnect
+        # began; and nothing may precede or split handshake + login start
+        stale = []
+        for f in l2['frames']:
+            if f[1] != 0x05:
+                continue
+            try:
+                a, b, rest = f[2].split(b':', 2)
+                o = written.get((int(a), int(b)))
+            except ValueError:
+                o = None
+            if f[0] != 'play' or o is None or o[1] != 'f' or \
+                    o[4] < rcs[0][3]:
+                stale.append(f[:2])
         if stale or l2['errors'] or (len(heads) == 2 and heads != [
                 ('handshake', 0), ('login', 0)]):
             ctx.fail('schedule', 'A4-stale-packets-on-new-connection', sub,
@@ -359,6 +408,12 @@ SMALL = [
      'mode': 'plain'},
     {'programs': [[('f', 8), ('q', 9), ('d', True), ('rc',)]],
      'mode': 'c64'},
+    # another thread's forced writes around a reconnect (whoever waits for
+    # the write lock during connect() must still be serialised afterwards)
+    {'programs': [[('d', True), ('rc',), ('f', 9)], [('f', 10), ('f', 12)]],
+     'mode': 'plain', 'rc_concurrent': True},
+    {'programs': [[('d', False), ('rc',)], [('f', 30), ('f', 6), ('f', 7)]],
+     'mode': 'plain', 'rc_concurrent': True},
 ]
 
 
